@@ -149,7 +149,8 @@ func (g *c08gen) capture(kind, depth int, inBlock string, inMacro bool) []gen.No
 		}
 		return out
 	case kFilter:
-		fs := [][]string{{"b1"}, {"b2", "b1"}, {"b1", "b2", "b3"}, {"b3"}, {"up"}, {"up", "b2"}}
+		// inc returns a number, ident whatever it was given: the next filter in the section still gets text
+		fs := [][]string{{"b1"}, {"b2", "b1"}, {"b1", "b2", "b3"}, {"b3"}, {"up"}, {"up", "b2"}, {"inc", "wrap"}, {"ident", "wrap", "b1"}, {"inc", "ident", "wrap"}}
 		return []gen.Node{&gen.NFilter{Filters: fs[r.Intn(len(fs))], Body: g.body(depth-1, inBlock, inMacro)}}
 	case kMacro:
 		if inMacro {
